@@ -17,7 +17,7 @@ import impl_model as im
 from props import c06
 
 THEOREMS = ['C07_write_order', 'C07_raw_verbatim', 'C07_deleted_not_written', 'C07_includes_not_written', 'C07_include_cycles', 'C07_include_inserted',
-            'C07_passthrough_fixpoint', 'C07_scaled_denote', 'C07_expand_example']
+            'C07_passthrough_fixpoint', 'C07_scaled_denote', 'C07_u_fixed_point', 'C07_expand_example']
 IMPORTS = 'From SX Require Import Base.Prelude Base.Str Model.Wrap Model.Writer.\n'
 UNKNOWN = ['REM caf\u00e9ine at 100\u00b0 d = 1.54 \u00c5', 'TIME 5 ! \u00c5ngstr\u00f6m', 'TIME 5', 'MOLE 1', 'HOPE 1 2 3', 'LONE 1 2 C1', 'BEDE x y', 'TIME   5    ! odd   spacing', 'mole 2']
 
@@ -174,6 +174,7 @@ def run(ctx):
             files = {}
             natoms_inc = 0
             nrest_inc = 0
+            sandwich = False
             pos = [i for i, l in enumerate(lines) if l.startswith('FVAR')][-1] + 1
             for j in range(rng.randint(1, 2)):
                 name = 'inc%d.txt' % j
@@ -186,7 +187,8 @@ def run(ctx):
                     nrest_inc += 1
                 if j == 0 and rng.random() < 0.3:
                     # further free variables defined in the include file (they belong to the model, not to the written res file)
-                    body.insert(0, 'FVAR 0.35 0.45')
+                    body.insert(0, 'FVAR ' + ' '.join('0.3%d' % q for q in range(1, rng.randint(2, 5))))
+                    sandwich = rng.random() < 0.6
                 if rng.random() < 0.4:       # nested include
                     nn = 'nest%d.txt' % j
                     files[nn] = ['Y%d 1 %.5f %.5f %.5f 11.00000 0.05' % (j, rng.random(), rng.random(), rng.random())]
@@ -195,6 +197,11 @@ def run(ctx):
                 files[name] = body
                 lines.insert(pos, '+' + name)
                 pos += 1
+                if sandwich and j == 0:
+                    # the free variables of the main file continue behind the include line (they coalesce at the first FVAR line on
+                    # writing, those of the include file stay where they are)
+                    lines.insert(pos, 'FVAR ' + ' '.join('0.7%d' % q for q in range(1, rng.randint(3, 9))))
+                    pos += 1
             if rng.random() < 0.3:
                 lines.insert(pos, '+missing.txt')
             for n, body in files.items():
